@@ -341,27 +341,32 @@ async def wire_names(ctx, cases, sessions=None):
     P = pathlib.PurePosixPath
     n_ops = 0
     async with wire.Pair(None, {}) as p:
-        c = p.client
         # every command line the client really sends, with the first reply code it got (for the session model)
         log = []
-        real_command = c.command
 
-        async def logged_command(command=None, expected_codes=(), wait_codes=(), censor_after=None):
-            try:
-                r = await real_command(command, expected_codes, wait_codes, censor_after=censor_after)
-            except errors.StatusCodeError as e:
+        def attach(client):
+            real_command = client.command
+
+            async def logged_command(command=None, expected_codes=(), wait_codes=(), censor_after=None):
+                try:
+                    r = await real_command(command, expected_codes, wait_codes, censor_after=censor_after)
+                except errors.StatusCodeError as e:
+                    if command:
+                        log.append((command, str(e.received_codes[-1])))
+                    raise
                 if command:
-                    log.append((command, str(e.received_codes[-1])))
-                raise
-            if command:
-                log.append((command, str(r[0])))
-            return r
+                    log.append((command, str(r[0])))
+                return r
 
-        c.command = logged_command
+            client.command = logged_command
+            return client
+
+        c = attach(p.client)
         for comps, other in cases:
             p.server.path_io_factory.state[:] = wire.mem_state({})
             del log[:]
             payloads, obs = [], {"pwd": [], "retr": [], "listed": []}
+            cur = ["start"]  # the client operation in progress (an exception is reported against it)
             await c.change_directory("/")
             path = P("/", *comps)
             name = comps[-1]
@@ -383,11 +388,13 @@ async def wire_names(ctx, cases, sessions=None):
             ctx.case(("wire", tuple(comps), other))
             ctx.traces_impl += 1
             try:
+                cur[0] = "mkd"
                 await c.make_directory(path)
                 n_ops += 1
                 if p.tree() != expect({}):
                     bad("mkd", f"tree {p.tree()!r}")
                     continue
+                cur[0] = "pwd"
                 await c.change_directory(path)
                 cwd = await c.get_current_directory()
                 obs["pwd"].append(str(cwd))
@@ -395,6 +402,7 @@ async def wire_names(ctx, cases, sessions=None):
                 if cwd != path:
                     bad("pwd", f"reported {str(cwd)!r}", shape(comps))
                 # from inside: relative name
+                cur[0] = "stor-relative"
                 payloads.append(data)
                 async with c.upload_stream(name) as s:
                     await s.write(data)
@@ -402,49 +410,58 @@ async def wire_names(ctx, cases, sessions=None):
                 if p.tree() != expect({name: data}):
                     bad("stor-relative", f"tree {p.tree()!r}")
                 await c.change_directory("/")
+                cur[0] = "mlsd"
                 listed = sorted((str(q), i["type"]) for q, i in await c.list(path))
                 obs["listed"].append(sorted(q.rsplit("/", 1)[-1] for q, _ in listed))
                 n_ops += 1
                 if listed != [(str(path / name), "file")]:
                     bad("mlsd", f"listed {listed!r}")
+                cur[0] = "list"
                 listed2 = sorted((str(q), i["type"]) for q, i in await c.list(path, raw_command="LIST"))
                 obs["listed"].append(None)  # LIST: the names are compared by the oracle below, not with the model (F13)
                 n_ops += 1
                 if listed2 != [(str(path / name), "file")]:
                     bad("list", f"listed {listed2!r}", "leading-space" if name != name.lstrip() else "other")
+                cur[0] = "mlst"
                 info = await c.stat(path / name)
                 n_ops += 1
                 if info.get("type") != "file" or info.get("size") != str(len(data)):
                     bad("mlst", f"info {info!r}")
                 if not await c.is_dir(path):
                     bad("mlst-dir", "not a directory")
+                cur[0] = "retr"
                 async with c.download_stream(path / name) as s:
                     got = await s.read()
                 obs["retr"].append(got)
                 n_ops += 1
                 if got != data:
                     bad("retr", f"got {got!r}")
+                cur[0] = "appe"
                 payloads.append(b"+")
                 async with c.append_stream(path / name) as s:
                     await s.write(b"+")
                 n_ops += 1
                 if p.tree() != expect({name: data + b"+"}):
                     bad("appe", f"tree {p.tree()!r}")
+                cur[0] = "rename"
                 if other != name:
                     await c.rename(path / name, path / other)
                     n_ops += 1
                     if p.tree() != expect({other: data + b"+"}):
                         bad("rename", f"tree {p.tree()!r}")
                     await c.rename(path / other, path / name)
+                cur[0] = "dele"
                 await c.remove(path / name)
                 n_ops += 1
                 if p.tree() != expect({}):
                     bad("dele", f"tree {p.tree()!r}")
+                cur[0] = "rmd"
                 await c.remove_directory(path)
                 n_ops += 1
                 if p.tree() != _parent_tree(comps):
                     bad("rmd", f"tree {p.tree()!r}")
                 # the same node through RELATIVE spellings from inside its parent (the steps of C08_name_transparent)
+                cur[0] = "mkd-rel"
                 parent = path.parent
                 await c.change_directory(parent)
                 await c.make_directory(P(name))
@@ -452,6 +469,7 @@ async def wire_names(ctx, cases, sessions=None):
                 if p.tree() != expect({}):
                     bad("mkd-rel", f"tree {p.tree()!r}")
                     continue
+                cur[0] = "mlsd-parent"
                 here = sorted((str(q), i["type"]) for q, i in await c.list())  # the default path: 'MLSD' alone
                 obs["listed"].append(sorted(q for q, _ in here))
                 n_ops += 1
@@ -462,23 +480,27 @@ async def wire_names(ctx, cases, sessions=None):
                 n_ops += 1
                 if there != [(str(path), "dir")]:
                     bad("mlsd-parent-abs", f"listed {there!r}")
+                cur[0] = "mlst-name"
                 code, info = await c.command("MLST " + name, "2xx")
                 n_ops += 1
                 st_name = c.parse_mlsx_line(info[1].lstrip())[0]
                 if st_name != P(name):
                     bad("mlst-name", f"reply names {str(st_name)!r}")
+                cur[0] = "cwd-rel"
                 await c.change_directory(P(name))
                 cwd = await c.get_current_directory()
                 obs["pwd"].append(str(cwd))
                 n_ops += 2
                 if cwd != path:
                     bad("cwd-rel", f"PWD reported {str(cwd)!r}", shape(comps))
+                cur[0] = "cdup"
                 await c.change_directory("..")
                 cwd = await c.get_current_directory()
                 obs["pwd"].append(str(cwd))
                 n_ops += 2
                 if cwd != parent:
                     bad("cdup", f"PWD reported {str(cwd)!r}", shape(comps))
+                cur[0] = "rename-dir"
                 if other != name:
                     await c.rename(P(name), P(other))
                     n_ops += 1
@@ -487,21 +509,101 @@ async def wire_names(ctx, cases, sessions=None):
                     await c.rename(P(other), P(name))
                     if p.tree() != expect({}):
                         bad("rename-dir-back", f"tree {p.tree()!r}")
+                cur[0] = "rmd-rel"
                 await c.remove_directory(P(name))
                 n_ops += 1
                 if p.tree() != _parent_tree(comps):
                     bad("rmd-rel", f"tree {p.tree()!r}")
-                if sessions is not None:
+                # the SAME name nested three deep (n/n/n), created step by step with RELATIVE spellings from inside, on this one
+                # client session: a relative name must denote the child of the CURRENT working directory every time, and a
+                # child carrying its parent's own name must be listed under exactly that name (MLSD and LIST, relative listed
+                # path, also recursively)
+                nest_ok = True
+                for d in (1, 2, 3):
+                    cur[0] = "nest-mkd"
+                    await c.make_directory(P(name))
+                    n_ops += 1
+                    if p.tree() != _nest(comps[:-1] + [name] * d):
+                        bad("nest-mkd", f"depth {d}: make_directory({name!r}) inside {str(P(parent, *[name] * (d - 1)))!r} left the tree {p.tree()!r}")
+                        nest_ok = False
+                        break
+                    cur[0] = "nest-cwd"
+                    await c.change_directory(P(name))
+                    cwd = await c.get_current_directory()
+                    obs["pwd"].append(str(cwd))
+                    n_ops += 2
+                    if cwd != P(parent, *[name] * d):
+                        bad("nest-pwd", f"depth {d}: PWD reported {str(cwd)!r}", shape(comps))
+                if nest_ok:
+                    cur[0] = "nest-stor"
+                    payloads.append(data)
+                    async with c.upload_stream(name) as s:
+                        await s.write(data)
+                    n_ops += 1
+                    if p.tree() != _nest(comps[:-1] + [name] * 3 + [name], data):
+                        bad("nest-stor", f"tree {p.tree()!r}")
+                    full = [(f"{name}/{name}", "dir"), (f"{name}/{name}/{name}", "dir"), (f"{name}/{name}/{name}/{name}", "file")]
+                    for where, listed_from in (("parent", parent), ("inside", parent / name)):
+                        cur[0] = "nest-cwd"
+                        await c.change_directory(listed_from)
+                        want = [full[0]] if where == "parent" else [(f"{name}/{name}", "dir")]
+                        for raw in ("MLSD", "LIST"):
+                            lsh = "leading-space" if raw == "LIST" and name != name.lstrip() else None
+                            cur[0] = f"nest-{raw.lower()}-{where}"
+                            before = len(log)
+                            got_l = sorted((str(q), i["type"]) for q, i in await c.list(P(name), raw_command=raw))
+                            obs["listed"] += [None] * sum(1 for l, _ in log[before:] if l.split(" ", 1)[0] in ("MLSD", "LIST"))
+                            n_ops += 1
+                            if got_l != want:
+                                bad(cur[0], f"list({name!r}, raw_command={raw!r}) from {str(listed_from)!r} gave {got_l!r}, expected {want!r}", lsh)
+                                continue
+                            if where != "parent":
+                                continue
+                            # the recursive walk (bounded: a listing that reports the listed directory itself never ends)
+                            cur[0] = f"nest-{raw.lower()}-recursive"
+                            before = len(log)
+                            walked, runaway = [], False
+                            async for q, i in c.list(P(name), recursive=True, raw_command=raw):
+                                walked.append((str(q), i["type"]))
+                                if len(walked) > 12:
+                                    runaway = True
+                                    break
+                            obs["listed"] += [None] * sum(1 for l, _ in log[before:] if l.split(" ", 1)[0] in ("MLSD", "LIST"))
+                            n_ops += 1
+                            if runaway or sorted(walked) != sorted(full):
+                                bad(cur[0], f"recursive list({name!r}, raw_command={raw!r}) gave {walked!r}, expected {full!r}", lsh)
+                                if runaway:
+                                    raise ConnectionError("listing abandoned")
+                    cur[0] = "nest-remove"
+                    await c.change_directory(parent)
+                    before = len(log)
+                    await c.remove(P(name))
+                    obs["listed"] += [None] * sum(1 for l, _ in log[before:] if l.split(" ", 1)[0] in ("MLSD", "LIST"))
+                    n_ops += 2
+                    if p.tree() != _parent_tree(comps):
+                        bad("nest-remove", f"tree {p.tree()!r}")
+                if sessions is not None and nest_ok:
                     sessions.append({"case": ["/".join(comps), other], "log": list(log), "payloads": list(payloads), "obs": obs,
                                      "tree": p.tree(), "cwd": str(parent)})
             except (errors.StatusCodeError, errors.PathIOError, ValueError, KeyError, IndexError, ConnectionError, asyncio.TimeoutError) as e:
-                bad("exception", f"{type(e).__name__}: {e}")
-                break
+                # an exception of the implementation is an observation: reported against the operation in progress, then the
+                # run goes on with the next case on a fresh client session
+                if str(e) != "listing abandoned":
+                    bad(cur[0], f"raised {type(e).__name__}: {e}")
+                try:
+                    c.close()
+                    c = aioftp.Client(path_io_factory=aioftp.MemoryPathIO, socket_timeout=20)
+                    await c.connect(p.server.server_host, p.server.server_port)
+                    await c.login(*p.login)
+                    p.client = attach(c)
+                except Exception as e2:  # the server itself is gone: nothing more to observe in this chunk
+                    ctx.notes.append(f"wire chunk abandoned after {type(e).__name__}: {type(e2).__name__}: {e2}")
+                    break
     return n_ops
 
 
-def _nest(comps):
-    t = {}
+def _nest(comps, leaf=None):
+    t = {} if leaf is None else leaf
     for x in reversed(comps):
         t = {x: t}
     return t
@@ -589,6 +691,8 @@ def stream_wire(ctx, xcheck=None):
     for i, name in enumerate(names):
         depth = 1 + i % 3
         comps = [names[(i * 5 + j * 11 + 1) % len(names)] for j in range(depth - 1)] + [name]
+        if i % 4 == 3:
+            comps = [name] * depth  # a name equal to its ancestors' names
         cases.append((comps, names[(i * 3 + 2) % len(names)]))
     # a few chunks so that one broken session does not hide the rest
     total = 0
@@ -599,6 +703,7 @@ def stream_wire(ctx, xcheck=None):
         check_sessions(ctx, sessions, xcheck)
     ctx.count("wire_name_cases", len(cases))
     ctx.count("wire_paths_with_quote", sum(any('"' in x for x in c) for c, _ in cases))
+    ctx.count("wire_paths_repeating_a_name", sum(len(set(c)) < len(c) for c, _ in cases))
     ctx.count("wire_operations", total)
     ctx.sample({"stream": "wire", "paths": ["/" + "/".join(c) for c, _ in cases[:5]]})
 
@@ -631,7 +736,12 @@ def correspondence(ctx):
         "backend tree compared with the expected tree after every step; then from inside the parent with RELATIVE spellings: "
         "make_directory, list() (MLSD alone) and list(parent): exactly one entry named n of type dir, raw MLST n: the reply's name, "
         "change_directory(n) + PWD, change_directory('..') + PWD, rename of the directory to the other name and back, "
-        "remove_directory; (session-model) every command line the real client sent in a wire case (with the STOR/APPE payloads and "
+        "remove_directory; then the SAME name nested three deep (n/n/n) on the same client session, created step by step with "
+        "relative make_directory + change_directory + PWD from inside, a relative upload at the bottom, list(n) from the parent and "
+        "from inside n with MLSD and with LIST (the child carries the listed directory's own name; relative one-component listed "
+        "path) and the bounded recursive walk with both, remove of the tree; a quarter of the cases at depth 2-3 repeat one name "
+        "along the whole path; an exception of the implementation is reported against the operation in progress and the run goes "
+        "on with a fresh client session; (session-model) every command line the real client sent in a wire case (with the STOR/APPE payloads and "
         "a data connection after each EPSV) is run through Model/NamesSession.irun (parse_command + Model/Session.v): first reply "
         "code of every command, PWD texts, RETR bytes, listed names, final tree and working directory must equal what the real "
         "server did. Non-trivial = distinct input."
